@@ -36,7 +36,7 @@ def main():
         })
     m = {
         "version": 1,
-        "setup_cmd": "python3 tools/mkroots.py && cd lean && lake build",
+        "setup_cmd": "python3 tools/setup.py",
         "hooks": {"guard": "SCRAPLI_VERIF", "enable": "no source hooks: harness objects are injected from outside (attribute assignment, sys.modules); checks set SCRAPLI_VERIF=1 for form only",
                   "baseline_off_cmd": "cd /repo && /venv/bin/python -m pytest -ra -q -p no:cacheprovider --timeout=900 --continue-on-collection-errors",
                   "source_commits": [], "add_only": True},
